@@ -8,6 +8,7 @@ import (
 	"time"
 
 	ipfslog "berty.tech/go-ipfs-log"
+	"berty.tech/go-ipfs-log/entry/sorting"
 	"berty.tech/go-ipfs-log/iface"
 
 	"verif/engine/run"
@@ -40,12 +41,28 @@ var (
 	CfgSharedH = &seqx.Config{Name: "sharedhash3", Writers: []int{0, 1, 0}, PC: 4, HashTie: true}
 	CfgDef2    = &seqx.Config{Name: "def2", Writers: []int{0, 1}, PC: 4}
 	CfgClk3    = &seqx.Config{Name: "clk3", Writers: []int{0, 1, 2}, PC: 4, StartClock: []int{0, 1000, 0}}
+	CfgFww3    = &seqx.Config{Name: "fww3", Writers: []int{0, 1, 2}, PC: 4, FirstWins: true}
+	// replica 0 orders with FirstWriteWins, the writers 1 and 2 with the default: a reader whose ordering differs from the writers'
+	CfgMixSort = &seqx.Config{Name: "mixedsort3", Writers: []int{0, 1, 2}, PC: 4, SortFor: func(i int) iface.EntrySortFn {
+		if i == 0 {
+			return sorting.FirstWriteWins
+		}
+		return nil
+	}}
+	// replica 0 writes and verifies with a link key, replica 1 with the default codec: merges between them are
+	// refused (the signatures do not match the other codec's pre-sign step); nothing may change on either side
+	CfgMixIO = &seqx.Config{Name: "mixedcodec2", Writers: []int{0, 1}, PC: 4, IOFor: func(i int) iface.IO {
+		if i == 0 {
+			return linkKeyIO("K1")
+		}
+		return nil
+	}}
 )
 
 var Configs = map[string]*seqx.Config{}
 
 func init() {
-	for _, c := range []*seqx.Config{CfgDef3, CfgHash3, CfgShared3, CfgSharedH, CfgDef2, CfgClk3} {
+	for _, c := range []*seqx.Config{CfgDef3, CfgHash3, CfgShared3, CfgSharedH, CfgDef2, CfgClk3, CfgFww3, CfgMixSort, CfgMixIO} {
 		Configs[c.Name] = c
 	}
 }
@@ -69,6 +86,16 @@ func Alphabet(n int, extras bool) []seqx.Op {
 	return a
 }
 
+// Alphabet2 is the two-replica alphabet (4 operations): cheap enough for depth 8-9.
+func Alphabet2() []seqx.Op {
+	return []seqx.Op{{K: "app", A: 0}, {K: "app", A: 1}, {K: "join", A: 0, B: 1}, {K: "join", A: 1, B: 0}}
+}
+
+// WithEmpty adds an append with an empty payload (a legal entry) by replica 1.
+func WithEmpty(a []seqx.Op) []seqx.Op {
+	return append(append([]seqx.Op{}, a...), seqx.Op{K: "appempty", A: 1})
+}
+
 // Macro prefixes: non-initial start states the depth bound cannot reach from empty.
 func chain(r, n int) []seqx.Op {
 	var p []seqx.Op
@@ -79,7 +106,11 @@ func chain(r, n int) []seqx.Op {
 }
 
 var Prefixes = map[string][]seqx.Op{
-	"":         nil,
+	"": nil,
+	// three-operation starts from which a depth-5 search reaches histories of eight operations
+	"+ab-merged": {{K: "app", A: 0}, {K: "app", A: 1}, {K: "join", A: 1, B: 0}},
+	"+abc":       {{K: "app", A: 0}, {K: "app", A: 1}, {K: "app", A: 2}},
+	"+a-spread":  {{K: "app", A: 0}, {K: "join", A: 1, B: 0}, {K: "join", A: 2, B: 0}},
 	"+chain20": chain(0, 20),
 	"+fork12": append(append(append(chain(0, 4), seqx.Op{K: "join", A: 1, B: 0}), append(chain(0, 8), chain(1, 8)...)...),
 		seqx.Op{K: "join", A: 0, B: 1}),
